@@ -294,6 +294,10 @@ def key_mill(env):
     g = gen.G(env.rnd)
     cw = cl.CaseW()
     s = cw.session(0x0020, 1, 1, sid="mill")
+    # the object constructed right after the fillers is the (2^32 + c)-th after the key whose public key the library
+    # computed last, for c = -3 .. 3 (an id per object, give or take a few ids spent elsewhere)
+    for c in range(-3, 4):
+        s.call("key_mill", ikm=g.rbytes(16), n=(1 << 32) - 1 + c, window=8)
     s.call("key_mill", ikm=g.rbytes(16), n=(1 << 32) - 40, window=80)
     s.call("key_mill", ikm=g.rbytes(16), n=1 << 16, window=80)
     for b in ("checked", "checked-std"):
@@ -309,7 +313,7 @@ def key_mill(env):
                 if o.ret is None or "ok" not in o.ret:
                     env.violation("C18:key_mill:%s" % o.outcome(), "constructing %s private keys: %s" % (o.args["n"], o.outcome()), case_text=ss.case_text(o.id), workload="placement")
                 elif o.ret.get("mism") != "0":
-                    env.violation("C18:depends_on_objects_created_before", "after %s private-key objects had been constructed in the process, %s of 80 freshly parsed keys gave a public key different from the one the same bytes gave before (%s build)" % (
+                    env.violation("C18:depends_on_objects_created_before", "after %s private-key objects had been constructed in the process, %s freshly parsed key(s) gave a public key different from the one the same bytes gave before (%s build)" % (
                         o.ret.get("made"), o.ret.get("mism"), b), case_text=ss.case_text(o.id), workload="placement")
                 else:
                     env.seen(("key_mill", b, o.args["n"]))
